@@ -79,6 +79,7 @@ fn main() {
             "xrun" => xrun::handle(&rest),
             "find" => findrun::handle(&rest),
             "glob" => globrun::handle(&rest),
+            "rxwrap" => globrun::handle_rxwrap(&rest),
             "oracle" => oracle::handle(&rest),
             "paths" => pathrun::handle(&rest),
             _ => "badcase".to_string(),
